@@ -170,6 +170,14 @@ def _shape(run, prog, W):
               "string outputs (ValueError of the float conversion) must be reported as ValueError", "ValueError re-raised")
 
 
+def _plain_1d(x):
+    """np.asarray(list(x.values())).reshape(1, -1) as the engine writes it (sites left open)."""
+    vals = ("res", "@", ".values", (x,), ())
+    lst = ("new", "@", "list", (vals,))
+    arr = ("fn", "asarray", (lst,))
+    return ("res", "@", ".reshape", (arr, ("const", 1), ("const", -1)), ())
+
+
 def _inputs(run, prog, W):
     names = ("field0", _wrapper_fields(prog, W)[1])
     has = ("cmp", "is not", names, ("const", None))
@@ -184,6 +192,27 @@ def _inputs(run, prog, W):
     sel = gate_on(gates[0], has) if len(gates) == 1 else None
     ok = sel is not None and sel[1] == x and sel[0][0] == "comp" and sel[0] == proj(x, sel[0][2])
     shape_ok = s.ret[0] == "res" and s.ret[2] == ".reshape" and s.ret[3][1:] == (("const", 1), ("const", -1))
+    if not (ok and shape_ok):
+        # the two cases may be written as two complete expressions (an early return for one of them): case by case
+        from .algebra import arms as _arms
+        from .boolalg import holds as _holds, excluded as _excluded
+        try:
+            cases = _arms(s.ret)
+        except Exception:
+            cases = []
+        good = bool(cases)
+        for facts, v in cases:
+            shaped = v[0] == "res" and v[2] == ".reshape" and v[3][1:] == (("const", 1), ("const", -1))
+            src = [t for t in ir.subterms(v) if t == x or (t[0] == "comp" and t[1] == "dict")] if shaped else []
+            comps = [t for t in src if t[0] == "comp"]
+            if _holds(facts, has):
+                good = good and shaped and len(comps) == 1 and comps[0] == proj(x, comps[0][2]) and \
+                    ir.strip_sites(v) == ir.strip_sites(ir.subst(_plain_1d(x), {x: comps[0]}))
+            elif _excluded(facts, has):
+                good = good and shaped and not comps and ir.strip_sites(v) == ir.strip_sites(_plain_1d(x))
+            else:
+                good = False
+        ok = shape_ok = good
     run.check(ok and shape_ok, "INPUT", "1d", f"{s.path}:{s.fn.lineno}", fq, f"1d input {ir.show_nl(s.ret)[:140]}",
               "a single dict must be projected on feature_names (in that order) exactly when feature_names is given and "
               f"become a (1, d) array; found {ir.show_nl(s.ret)[:200]}", "x -> {f: x[f] for f in names} if names else x -> (1, d)")
